@@ -1,3 +1,23 @@
+//! mc-bytes: fault-enumeration engines for the untrusted-bytes properties
+//! C38 (protobuf decoder), C34 (tensor file formats), C21 (external data),
+//! C05 (model loading).
+
+mod c38;
+mod drv;
+mod gens;
+mod pbref;
+mod seeds;
+
 fn main() {
-    vp_core::machinery_error("engine not built yet");
+    if let Some(w) = vp_core::isolate::worker_name() {
+        match w.as_str() {
+            "c38" => c38::worker(),
+            _ => vp_core::machinery_error("unknown worker"),
+        }
+    }
+    let prop = std::env::args().nth(1).unwrap_or_default();
+    match prop.as_str() {
+        "C38" => c38::run(vp_core::Ctx::from_env("C38")),
+        _ => vp_core::machinery_error("unknown property (mc-bytes serves C38 C34 C21 C05)"),
+    }
 }
